@@ -129,10 +129,55 @@ Proof.
     destruct (match ch with Some k => negb (chan_can_send E k) | None => false end); [inversion H as [[Hc He Hb]]; try rewrite <- Hc; exact Hok|].
     assert (Hs : Forall (fun x => setch_names ch (cu_urn x)) (c_urns c)).
     { cbn [chan_env_ok] in Henv. rewrite forallb_forall in Henv. apply Forall_forall. intros x Hx.
-      apply optN_eqb_eq. apply Henv. unfold raw_urns. apply in_map. exact Hx. }
+      apply optN_eqb_eq. assert (Hin : In (cu_urn x) (raw_urns (c_urns c))) by (unfold raw_urns; apply in_map; exact Hx).
+      specialize (Henv _ Hin). apply andb_true_iff in Henv. tauto. }
     pose proof (update_preferred_ok ch (c_urns c) Hok Hs) as Hu.
     destruct (update_preferred_channel E ch (c_urns c)) as [us' [|]]; inversion H as [[Hc He Hb]]; try rewrite <- Hc; destruct c; cbn in *; exact Hu.
   - unfold apply_ticket in H. destruct (c_ticket c) eqn:Ht; inversion H as [[Hc He Hb]]; try rewrite <- Hc; destruct c; cbn in *; exact Hok.
+Qed.
+
+(* a channel modifier changes affinity and order only: the identities (scheme + path) of the contact's URNs are the
+   same afterwards (since fix F3m; before, SetChannel re-normalized the path, e.g. tel:12065551212 -> tel:+12065551212) *)
+Definition ident_of (x : curn) : N := urn_identity E (cu_urn x).
+
+Lemma prefer_step_ident : forall k x,
+  urn_identity E (urn_set_channel E (Some k) (cu_urn x)) = urn_identity E (cu_urn x) ->
+  ident_of (prefer_step E k x) = ident_of x.
+Proof.
+  intros k x H. unfold prefer_step, ident_of.
+  destruct (N.eqb (urn_scheme E (cu_urn x)) (tel_scheme E) && chan_supports E k (tel_scheme E)); cbn [cu_urn cu_chan set_channel].
+  - exact H.
+  - destruct (cu_chan x); [reflexivity|].
+    destruct (chan_supports E k (urn_scheme E (cu_urn x))); [exact H | reflexivity].
+Qed.
+
+Theorem channel_keeps_identities : forall ch c c1 evs b i,
+  chan_env_ok E (MChannel ch) c = true ->
+  apply_channel E ch c = (c1, evs, b) ->
+  (In i (map ident_of (c_urns c1)) <-> In i (map ident_of (c_urns c))).
+Proof.
+  intros ch c c1 evs b i Henv H. unfold apply_channel in H.
+  destruct (match ch with Some k => negb (chan_can_send E k) | None => false end);
+    [inversion H as [[Hc He Hb]]; try rewrite <- Hc; tauto|].
+  assert (Hs : forall x, In x (c_urns c) -> urn_identity E (urn_set_channel E ch (cu_urn x)) = urn_identity E (cu_urn x)).
+  { intros x Hx. cbn [chan_env_ok] in Henv. rewrite forallb_forall in Henv.
+    assert (Hin : In (cu_urn x) (raw_urns (c_urns c))) by (unfold raw_urns; apply in_map; exact Hx).
+    specialize (Henv _ Hin). apply andb_true_iff in Henv. destruct Henv as [_ K]. apply N.eqb_eq in K. exact K. }
+  assert (Hu : In i (map ident_of (fst (update_preferred_channel E ch (c_urns c)))) <-> In i (map ident_of (c_urns c))).
+  { unfold update_preferred_channel. destruct ch as [k|].
+    - destruct (negb (chan_can_send E k)); [tauto|]. cbn [fst].
+      set (us1 := map (prefer_step E k) (c_urns c)).
+      assert (H1 : In i (map ident_of us1) <-> In i (map ident_of (c_urns c))).
+      { unfold us1. rewrite map_map. rewrite !in_map_iff. split; intros [x [Hx1 Hx2]]; exists x; split; try exact Hx2;
+          [rewrite <- (prefer_step_ident k x (Hs x Hx2)); exact Hx1 | rewrite (prefer_step_ident k x (Hs x Hx2)); exact Hx1]. }
+      rewrite <- H1. rewrite map_app, in_app_iff, !in_map_iff. split.
+      + intros [[x [Hx1 Hx2]]|[x [Hx1 Hx2]]]; apply filter_In in Hx2; exists x; tauto.
+      + intros [x [Hx1 Hx2]]. destruct (has_chan k x) eqn:Hh; [left | right]; exists x; split; try exact Hx1;
+          apply filter_In; split; try exact Hx2; [exact Hh | rewrite Hh; reflexivity].
+    - cbn [fst]. rewrite map_map. rewrite !in_map_iff. split; intros [x [Hx1 Hx2]]; exists x; split; try exact Hx2;
+        unfold ident_of, set_channel in *; cbn [cu_urn] in *; [rewrite <- (Hs x Hx2); exact Hx1 | rewrite (Hs x Hx2); exact Hx1]. }
+  destruct (update_preferred_channel E ch (c_urns c)) as [us' [|]]; cbn [fst] in Hu;
+    inversion H as [[Hc He Hb]]; try rewrite <- Hc; destruct c; cbn in *; exact Hu.
 Qed.
 
 Theorem chan_ok_apply : forall fresh m c c' evs b,
@@ -176,9 +221,9 @@ End Chan.
    on the whole contact: *)
 Definition chan_env : menv :=
   {| max_field_chars := 640;
-     urn_normalize := fun u => u; urn_valid := fun _ => true; urn_identity := fun u => u; urn_scheme := fun _ => 1;
-     urn_set_channel := fun ch u => match ch with Some k => 100 + k | None => 3 end;
-     urn_channel := fun u => if 100 <=? u then Some (u - 100) else None; tel_scheme := 1;
+     urn_normalize := fun u => u; urn_valid := fun _ => true; urn_identity := fun u => u mod 100; urn_scheme := fun _ => 1;
+     urn_set_channel := fun ch u => match ch with Some k => 100 * (k + 1) + u mod 100 | None => u mod 100 end;
+     urn_channel := fun u => if u <? 100 then None else Some (u / 100 - 1); tel_scheme := 1;
      chan_can_send := fun _ => true; chan_supports := fun _ _ => true;
      field_types := [FText];
      parse_num := fun _ => None; parse_dt := fun _ => None; parse_loc := fun _ _ _ => ([], [], []);
@@ -187,15 +232,15 @@ Definition chan_env : menv :=
 
 Definition chan_contact : contact :=
   {| c_name := [106]; c_lang := 1; c_status := Active; c_tz := None; c_last_seen := None;
-     c_urns := [{| cu_urn := 102; cu_chan := Some 2 |}]; c_groups := [0]; c_fields := []; c_ticket := None |}.
+     c_urns := [{| cu_urn := 302; cu_chan := Some 2 |}]; c_groups := [0]; c_fields := []; c_ticket := None |}.
 
 Example ex_chan_ok : chan_ok chan_env chan_contact /\ chan_env_ok chan_env (MChannel (Some 4)) chan_contact = true.
 Proof. split; [repeat constructor | reflexivity]. Qed.
 
-Example ex_set_same_urns : apply chan_env 7 (MURNs [102] USet) chan_contact = (chan_contact, [], false).
+Example ex_set_same_urns : apply chan_env 7 (MURNs [302] USet) chan_contact = (chan_contact, [], false).
 Proof. reflexivity. Qed.
 
 Example ex_channel_change :
   apply chan_env 7 (MChannel (Some 4)) chan_contact
-  = (with_urns chan_contact [{| cu_urn := 104; cu_chan := Some 4 |}], [EURNsChanged [104]], true).
+  = (with_urns chan_contact [{| cu_urn := 502; cu_chan := Some 4 |}], [EURNsChanged [502]], true).
 Proof. reflexivity. Qed.
